@@ -35,8 +35,8 @@ REQUIRED_CLASSES = ['same-result-object-written-twice', 'opened-by-relative-name
                     'full-file', 'record-with-thousands-of-fits', 'same-source-twice', 'blank-padded-names', 'same-source-object-changed-in-place']
 TIMEOUT = {'quick': 300, 'thorough': 900}
 
-KINDS_QUICK = ['f0', 'f1m', 'f3m', 'f3', 'f1L', 'f3mx', 'f1D', 'f1mP', 'f1S', 'f3mW', 'f3mE', 'f0m', 'f3mA', 'f3mO', 'f3U', 'f3mR']          # D: same source content as the record before it; P: blank-padded names; S: the very same Source object, changed in place
-KINDS_ALL = ['f0', 'f0m', 'f1', 'f1m', 'f3', 'f3m', 'f1L', 'f3mL', 'f3mx', 'f3x', 'f0L', 'f1mL', 'f1D', 'f3mD', 'f1mP', 'f3P', 'f1S', 'f3mS', 'f3mW', 'f1W', 'f3mE', 'f3Ex', 'f3mA', 'f3mO', 'f3U', 'f3mR', 'f1mO']
+KINDS_QUICK = ['f0', 'f1m', 'f3m', 'f3', 'f1L', 'f3mx', 'f1D', 'f1mP', 'f1S', 'f3mW', 'f3mE', 'f0m', 'f3mA', 'f3mO', 'f3U', 'f3mR', 'f3mB']          # B: big-endian arrays; D: same source content as the record before it; P: blank-padded names; S: the very same Source object, changed in place
+KINDS_ALL = ['f0', 'f0m', 'f1', 'f1m', 'f3', 'f3m', 'f1L', 'f3mL', 'f3mx', 'f3x', 'f0L', 'f1mL', 'f1D', 'f3mD', 'f1mP', 'f3P', 'f1S', 'f3mS', 'f3mW', 'f1W', 'f3mE', 'f3Ex', 'f3mA', 'f3mO', 'f3U', 'f3mR', 'f1mO', 'f3mB', 'f1B']
 
 
 def setup(tier, seed):
@@ -155,6 +155,11 @@ def _record(kind, idx, meta):
     else:
         i.model_name = np.array(['model_c', 'model_a', 'model_b'][:n], dtype='U30') if 'P' not in kind else np.array(['model_c    ', 'model_a    ', 'model_b    '][:n], dtype='U30')
     i.model_fluxes = ((np.arange(n * nb, dtype=float).reshape(n, nb) + 0.5 * idx) / 3.0) if 'm' in kind else None          # thirds: not representable in single precision
+    if 'B' in kind:        # every array in non-native (big-endian) byte order, as arrays that come out of a FITS table are
+        for a_ in ('chi2', 'av', 'sc', 'model_id', 'model_fluxes'):
+            v_ = getattr(i, a_)
+            if v_ is not None:
+                setattr(i, a_, v_.astype(v_.dtype.newbyteorder('>')))
     i.meta.model_dir, i.meta.filters, i.meta.extinction_law = meta
     return i
 
